@@ -273,6 +273,18 @@ func (s *Store) PeekInto(k ObjKey, into runtime.Object) bool {
 	return true
 }
 
+// PeekIntoU converts an unstructured object (a WriteRecord's Before / After,
+// say) into a typed one; false if u is nil.
+func (s *Store) PeekIntoU(u *unstructured.Unstructured, into runtime.Object) bool {
+	if u == nil {
+		return false
+	}
+	if err := s.fromU(u, into); err != nil {
+		panic(err)
+	}
+	return true
+}
+
 // Remove deletes an object immediately regardless of finalizers (harness
 // use: a third party forcibly removing something).
 func (s *Store) Remove(k ObjKey) {
